@@ -66,11 +66,17 @@ class Anon:
 
 
 class _Open:
+    """marker for 'no connection made' (compare with is_open(): copies of the DSL copy the marker)"""
+
     def __repr__(self):
         return "Open"
 
 
 Open = _Open()
+
+
+def is_open(e):
+    return isinstance(e, _Open)
 
 
 # ---------------- definitions
@@ -246,7 +252,7 @@ class Ref:
         ipath = path + (iname,)
         for port, (kind, x) in port_table(of).items():
             e = conns.get(port, Open)
-            if e is Open:
+            if is_open(e):
                 continue
             if kind == "sig":
                 w = x
